@@ -1,0 +1,12 @@
+// Verification hooks (compiled only with `--cfg melda_verif`).
+// Re-exports crate-private items so that an external harness crate can call
+// the real functions; adds no behaviour of its own.
+pub use crate::datastorage::DataStorage;
+pub use crate::revision::Revision;
+pub use crate::revisiontree::{RevisionTree, RevisionTreeEntry};
+pub mod constants {
+    pub use crate::constants::*;
+}
+pub mod utils {
+    pub use crate::utils::*;
+}
